@@ -77,6 +77,28 @@ Section Poly.
     else if existsb (fun s => equal_float64 s t tolerance) set then set
     else set ++ [t].
 
+  (* the candidate parameters: 0, 1 and the crossings of the four box sides *)
+  Definition clip_ts (a : Box2) (l : Seg) : list T :=
+    let u := fst l in
+    let v := v2sub (snd l) (fst l) in
+    let ts := [o0 O; o1 O] in
+    let ts := if negb (vy v =? o0 O) then
+                let k := o1 O / vy v in
+                t_append (t_append ts ((vy (b2min a) - vy u) * k)) ((vy (b2max a) - vy u) * k)
+              else ts in
+    if negb (vx v =? o0 O) then
+      let k := o1 O / vx v in
+      t_append (t_append ts ((vx (b2min a) - vx u) * k)) ((vx (b2max a) - vx u) * k)
+    else ts.
+  (* the point at parameter t; the end points of the line are used as they are *)
+  Definition clip_pt (l : Seg) (t : T) : V2 :=
+    let p := v2add (fst l) (v2muls (v2sub (snd l) (fst l)) t) in
+    if t =? o0 O then fst l else if t =? o1 O then snd l else p.
+
+  (* the pinned commit computed every candidate, the end points included, as u + v*t *)
+  Definition clip_pt_pinned (l : Seg) (t : T) : V2 :=
+    v2add (fst l) (v2muls (v2sub (snd l) (fst l)) t).
+
   Definition line_intersect (a : Box2) (l : Seg) : option Seg :=
     let u := fst l in
     let v := v2sub (snd l) (fst l) in
@@ -84,20 +106,9 @@ Section Poly.
     else if (vx v =? o0 O) && (vx u =? vx (b2max a)) then None
     else if box2_contains a (fst l) && box2_contains a (snd l) then Some l
     else
-      let ts := [o0 O; o1 O] in
-      let ts := if negb (vy v =? o0 O) then
-                  let k := o1 O / vy v in
-                  t_append (t_append ts ((vy (b2min a) - vy u) * k)) ((vy (b2max a) - vy u) * k)
-                else ts in
-      let ts := if negb (vx v =? o0 O) then
-                  let k := o1 O / vx v in
-                  t_append (t_append ts ((vx (b2min a) - vx u) * k)) ((vx (b2max a) - vx u) * k)
-                else ts in
       let ps := flat_map (fun t =>
-                  let p := v2add u (v2muls v t) in
-                  let p := if t =? o0 O then fst l else if t =? o1 O then snd l else p in
-                  let p := box2_snap a p tolerance in
-                  if box2_contains a p then [p] else []) ts in
+                  let p := box2_snap a (clip_pt l t) tolerance in
+                  if box2_contains a p then [p] else []) (clip_ts a l) in
       match ps with
       | [p0; p1] =>
           let vx_ := v2sub p1 p0 in
